@@ -143,3 +143,20 @@ fn c08_limit_offset_1_row() {
 fn c08_limit_offset_3_rows() {
     limit_offset::<3>();
 }
+
+/// Any two heap-free values of ANY types: the sort comparison never panics and is
+/// antisymmetric (mixed types and NaN compare Equal both ways).
+#[kani::proof]
+#[kani::unwind(8)]
+fn c08_key_order_any_types() {
+    let a = crate::c24::any_scalar13_pub();
+    let b = crate::c24::any_scalar13_pub();
+    let ab = s::compare_sql_values(&a, &b);
+    let ba = s::compare_sql_values(&b, &a);
+    assert!(ab == ba.reverse(), "sort comparison is antisymmetric for every pair of values");
+    if a.is_null() && !b.is_null() {
+        assert!(ab == Ordering::Greater, "NULL sorts after every non-NULL key");
+    }
+    kani::cover!(ab == Ordering::Less, "ordered pair");
+    std::mem::forget((a, b));
+}
